@@ -31,8 +31,14 @@ class DimensionRenamer(Transformer):
         self.sample_dims_before = sample_dims
         self.feature_dims_before = feature_dims
 
+        # Number the sample dimensions first, in the order given by the user, so that
+        # the new names do not depend on how the dimensions of the data are laid out
+        # (the items of a list are stacked and concatenated by these names)
+        ordered_dims = tuple(sample_dims) + tuple(
+            dim for dim in X.dims if dim not in sample_dims
+        )
         self.dim_mapping = {
-            dim: f"{self.base}{i}" for i, dim in enumerate(X.dims, start=self.start)
+            dim: f"{self.base}{i}" for i, dim in enumerate(ordered_dims, start=self.start)
         }
 
         self.sample_dims_after: Dims = tuple(
